@@ -497,12 +497,21 @@ func (s *scope) atomFacts(pr *proof, name string, v ssa.Value) {
 					pr.add(ge(a, l))
 				}
 			case "copy":
+				// n = min(len(dst), len(src))
 				pr.add(geC(a, 0))
-				if l, ok := s.lenLin(cm.Args[0], pr); ok {
-					pr.add(le(a, l))
+				ld, ok1 := s.lenLin(cm.Args[0], pr)
+				ls, ok2 := s.lenLin(cm.Args[1], pr)
+				if ok1 {
+					pr.add(le(a, ld))
 				}
-				if l, ok := s.lenLin(cm.Args[1], pr); ok {
-					pr.add(le(a, l))
+				if ok2 {
+					pr.add(le(a, ls))
+				}
+				if ok1 && ok2 {
+					pr.addSplit(fmt.Sprintf("copy:%s%p", s.prefix, x), [][]Cons{
+						append(eq(a, ls), le(ls, ld)),
+						append(eq(a, ld), lt(ld, ls)),
+					})
 				}
 			}
 			return
